@@ -19,7 +19,7 @@ func init() {
 			"positive. R4: entries obtained from the nonce-parametrised reader are written back under a key recomputed from the entry's own metadata nonce: the reader must relate that nonce to the requested one (KNOWN FINDING on this tree, see known_findings.json). " +
 			"R5: the hand-over appends the create role only after a search of the same list for the same constant found nothing. Does NOT decide: the invariant on reachable states as such.",
 		Trusted: []string{"C02-R1, C08-R1 (metadata attached only by create)", "A-deps"},
-		Rules:   []func(*Ctx){c15r1, c15r2, c15r3, c15r4, c15r5, c15r6, c15r7, c15r8, c15r9},
+		Rules:   []func(*Ctx){c15r1, c15r2, c15r3, c15r4, c15r5, c15r6, c15r7, c15r8, c15r9, c15r10},
 	})
 }
 
@@ -269,7 +269,9 @@ func c15r3(c *Ctx) {
 				if !f.Pos && strings.HasPrefix(f.Atom, "zero("+valPrefix) && strings.Contains(f.Atom, ","+zero+")") {
 					return true
 				}
-				if !f.Pos && strings.HasPrefix(f.Atom, "call:") && strings.Contains(f.Atom, "(*"+ot+".Properties)") {
+				// … the flag exception belongs to the token-level (fungible) key only: under a key with a nonce part an entry
+				// without balance is deleted whatever its flags are
+				if !f.Pos && strings.HasPrefix(f.Atom, "call:") && strings.Contains(f.Atom, "(*"+ot+".Properties)") && len(ks.Parts) == 1 {
 					return true
 				}
 				return false
@@ -283,7 +285,7 @@ func c15r3(c *Ctx) {
 				c.OK(rule, FuncName(s.In.Parent()), construct, c.P.InstrPos(s.In), "cut in "+where+" by "+fs[0].String())
 			} else {
 				c.FailX(Oblig{Rule: rule, Func: FuncName(s.In.Parent()), Construct: construct, Pos: c.P.InstrPos(s.In), Kind: "violation",
-					Detail: "an entry can be stored with a zero (or negative) balance instead of being deleted", Path: at.witnessPath(pred),
+					Detail: "an entry can be stored with a zero (or negative) balance instead of being deleted" + map[bool]string{true: " (non-empty properties keep an entry only under the token-level key of a fungible holding, not under a key with a nonce)", false: ""}[len(ks.Parts) > 1], Path: at.witnessPath(pred),
 					Expected: "if Value <= 0 { delete } (NFT) / if Value == 0 && properties empty { delete } (fungible) before the marshalled write"})
 			}
 		}
@@ -480,4 +482,10 @@ func c15r8(c *Ctx) {
 func c15r9(c *Ctx) {
 	c.Rule("C15-R9", "a loaded account that is modified is saved afterwards on every path to success", 2)
 	loadedAccountSaved(c, "C15-R9", "", nil)
+}
+
+// c15r10: the entry that is shipped or credited is the holder's entry as a whole (shared with C08-R2): an entry rebuilt from
+// some of its fields arrives with the others at their zero value — NFT metadata under Type Fungible is an ill-formed entry.
+func c15r10(c *Ctx) {
+	c.shareRule(c08r2, "C08-R2", "C15-R10", "the entry marshalled for a credit or a shipment is the sender's (or the decoded) entry as a whole, not one rebuilt field by field", nil)
 }
